@@ -42,6 +42,8 @@ pub static mut NRELEASED: usize = 0;
 pub static mut BUDGET: usize = 0;
 /// symbolic failure mask: bit k set => the k-th call (0-based) fails even if budget is left
 pub static mut FAIL_MASK: u8 = 0;
+/// see `raw_block`: serve every multiple of 16 up to 256 instead of the three sizes a correct tree asks for
+pub static mut WIDE: bool = false;
 
 pub fn set_budget(n: usize) {
     unsafe { BUDGET = n }
@@ -78,27 +80,37 @@ unsafe fn raw_block<const EXTRA: usize>(size: usize, align: usize) -> *mut u8 {
         };
     }
     // the sizes a 32-byte-header arena with MINIMUM_CHUNK_SIZE = 1 asks for: 48 (16 B capacity), then 112, then 240
-    // Every multiple of 16 up to 256 is served (each arm a concrete-size object): on a correct tree only 48 / 112 / 240
-    // are ever requested (the requested size is a constant on each path, so the other arms cost nothing); a change
-    // that makes the library ask for another size (e.g. a wrong growth rule) is then SERVED and judged by the oracles
-    // (C10 "strictly larger", C12 "at least twice the previous size less 16") instead of being refused and reported
-    // as an unsatisfied witness.
+    // NARROW (default): exactly the three sizes a correct tree asks for. Where the requested size is SYMBOLIC
+    // (with_capacity / reserve / first allocation with a symbolic layout) every arm is a feasible heap object, and 14
+    // arms instead of 3 took `c12x_with_capacity_va_down` from 6.6 GB to out of memory at 19 GB.
+    // WIDE (set by the growth-rule harnesses, whose requests are concrete on every path): every multiple of 16 up to
+    // 256 is served, so that a change which makes the library ask for another size (a wrong growth rule) is SERVED and
+    // judged by the oracles (C10 "strictly larger", C12 "at least twice the previous size less 16") instead of being
+    // refused and reported as an unsatisfied witness.
     match size {
         48 => arm!(48),
-        64 => arm!(64),
-        80 => arm!(80),
-        96 => arm!(96),
         112 => arm!(112),
-        128 => arm!(128),
-        144 => arm!(144),
-        160 => arm!(160),
-        176 => arm!(176),
-        192 => arm!(192),
-        208 => arm!(208),
-        224 => arm!(224),
         240 => arm!(240),
-        256 => arm!(256),
-        _ => core::ptr::null_mut(),
+        _ => {
+            if unsafe { WIDE } {
+                match size {
+                    64 => arm!(64),
+                    80 => arm!(80),
+                    96 => arm!(96),
+                    128 => arm!(128),
+                    144 => arm!(144),
+                    160 => arm!(160),
+                    176 => arm!(176),
+                    192 => arm!(192),
+                    208 => arm!(208),
+                    224 => arm!(224),
+                    256 => arm!(256),
+                    _ => core::ptr::null_mut(),
+                }
+            } else {
+                core::ptr::null_mut()
+            }
+        }
     }
 }
 
